@@ -831,7 +831,7 @@ fn mutants(r: &mut TestRunner, i: usize) -> Vec<Mutant> {
             late,
         })
     };
-    match i % 16 {
+    match i % 17 {
         0 => {
             // unbound variable inside a rule
             let mut s = base.clone();
@@ -1024,6 +1024,45 @@ fn mutants(r: &mut TestRunner, i: usize) -> Vec<Mutant> {
             let variants = ["['y'-]", "['y' - - 'z']", "[\"yz\"]", "['y'-'z' _]"];
             let def = d.replacen("['y'-'z']", variants[pos % variants.len()], 1);
             push(&mut out, "syntax-malformed-bracket-set", def, false, late(pos));
+        }
+        15 => {
+            // token-level mutation of one rule's regex, judged by the grammar recogniser
+            use oracle::syntax::{is_regex, join, tokenize, Tok};
+            let rules = base.rules();
+            if !rules.is_empty() {
+                let k = pos % rules.len();
+                let text = print_re(&rules[k].re, Paren::Full);
+                if let Some(toks) = tokenize(&text) {
+                    let vocab = [
+                        Tok::P('('), Tok::P(')'), Tok::P('['), Tok::P(']'), Tok::P('|'), Tok::P('*'), Tok::P('+'), Tok::P('?'),
+                        Tok::P('#'), Tok::P('$'), Tok::P('$'), Tok::P('_'), Tok::P('-'), Tok::Char("'a'".into()), Tok::Char("'z'".into()),
+                        Tok::Str("\"ab\"".into()), Tok::Ident("x".into()), Tok::Ident("alphabetic".into()),
+                    ];
+                    let edits = sample(&proptest::collection::vec(any::<u32>(), 9), r);
+                    for e in edits.chunks(3) {
+                        let mut t = toks.clone();
+                        let at = e[0] as usize % (t.len() + 1);
+                        let v = vocab[e[1] as usize % vocab.len()].clone();
+                        match e[2] % 5 {
+                            0 if at < t.len() => {
+                                t.remove(at);
+                            }
+                            1 => t.insert(at, v),
+                            2 if at < t.len() => t[at] = v,
+                            3 if at + 1 < t.len() => t.swap(at, at + 1),
+                            _ if at < t.len() => {
+                                let d = t[at].clone();
+                                t.insert(at, d);
+                            }
+                            _ => t.push(v),
+                        }
+                        if t != toks && !is_regex(&t) {
+                            let def = pipe::macro_body(&base.print_macro_with("Lexer", Some(&(k as u32, join(&t)))));
+                            push(&mut out, "syntax-token-mutation", def, false, k >= 1);
+                        }
+                    }
+                }
+            }
         }
         _ => {
             // unbalanced / dangling operators
